@@ -800,6 +800,7 @@ func regSweepSlicesFor(tier string) int {
 
 // RunC16 is one simulated run.
 func RunC16(ctx *core.Ctx, r *core.Rng) {
+	Noise(ctx, r)
 	if ctx.Run() < regSweepSlicesFor(ctx.Tier) {
 		runC16Sweep(ctx, ctx.Run())
 		return
